@@ -129,7 +129,9 @@ def abstract_ws2d(it):
         n = y.shape[0]
         ys = interp.arr_values(st, y)
         ws = interp.arr_values(st, wv)
-        vec = ys + [lam] + ws
+        # the solution of (W + lam D'D) z = W y depends on y only through the products w_i * y_i (C01)
+        wy = [interp.A.mul(a, b) for a, b in zip(ws, ys)]
+        vec = wy + [lam] + ws
         if any(V.is_nonfinite(v) for v in vec):
             raise Unsupported("non-finite argument to abstracted ws2d")
         targs = [V.to_real(V.num_of_bool(v)) for v in vec]
@@ -139,8 +141,24 @@ def abstract_ws2d(it):
     it.overrides["ws2d"] = f
     it.encoded["hdc.algo.ops.ws2d.ws2d (abstracted: uninterpreted)"] = "uf"
 
+    from pysym.lib import native, _values_of
 
-def two_stage(w, build, names_hint=""):
+    @native
+    def uf_median(interp, st, a, **kw):
+        """np.median as an uninterpreted function of the (masked) vector - same vector, same median."""
+        vals, mask = _values_of(interp, st, a)
+        if any(V.is_nonfinite(v) for v in vals):
+            return V.NAN
+        args = []
+        for i, v in enumerate(vals):
+            m = True if mask is None else mask[i]
+            args.append(V.to_real(interp.A.ite(m, V.num_of_bool(v), 0)))
+            args.append(V.to_real(V.num_of_bool(interp.A.truthy(m) if not V.is_boolish(m) else m)))
+        return interp.A.uf(f"MED{len(vals)}", len(args))(*args)
+    it.lib_overrides["numpy.median"] = uf_median
+
+
+def two_stage(w, build, names_hint="", inline=True):
     """build(abstract: bool) -> dict(assume, lemmas, claims=[(name, claim, kwargs)], conc, encoded).
 
     Stage 1 decides every claim with ws2d abstracted (fast, sound for 'holds'). Claims not proven there are re-decided with
@@ -152,16 +170,26 @@ def two_stage(w, build, names_hint=""):
     pending = None
     if b is not None:
         pending = []
+        budget = min(w.timeout_ms, 20000)
         for name, claim, kw in b["claims"]:
-            v, m, dt = C.check_sat(list(b["assume"]) + list(b["lemmas"]) + [kw.get("guard", True), V.z_not(claim)],
-                                   min(w.timeout_ms, 20000))
+            if V.simp_bool(claim) is False and V.simp_bool(kw.get("guard", True)) is True:
+                v, m, dt = "sat", None, 0.0
+            else:
+                v, m, dt = C.check_sat(list(b["assume"]) + list(b["lemmas"]) + [kw.get("guard", True), V.z_not(claim)], budget)
+                if v not in ("sat", "unsat"):
+                    budget = 3000   # siblings of an undecided claim get a short budget
             goal_hash = C.term_hash(V.to_z3(V.z_not(claim))) if V.is_sym(V.z_not(claim)) else "const"
             if v == "unsat":
                 w.res.queries.append({"name": name + "[ws2d abstracted]", "verdict": "unsat", "time": round(dt, 4), "hash": goal_hash,
                                       "nvars": 1 if V.is_sym(claim) else 0, "config": w.config})
             else:
                 cand = None
-                if v == "sat":
+                if v != "sat" and V.simp_bool(claim) is not False:
+                    # a model of the formula without the ground lemmas is still a usable candidate (the replayer decides)
+                    v0, m0, _ = C.check_sat(list(b["facts"]) + [kw.get("guard", True), V.z_not(claim)], 5000)
+                    if v0 == "sat":
+                        v, m = "sat", m0
+                if v == "sat" and m is not None:
                     try:
                         cand = C.jsonable(b["conc"](m))
                     except Exception:
@@ -170,6 +198,20 @@ def two_stage(w, build, names_hint=""):
         w.res.encoded.update(b["encoded"])
         if not pending:
             return
+    if not inline:
+        for name, cand in pending:
+            w.res.queries.append({"name": name + "[ws2d abstracted; inlined stage disabled for this configuration]", "verdict": "unknown",
+                                  "time": 0.0, "hash": "noinline:" + name + str(w.config), "nvars": 1, "config": w.config})
+            if cand is not None:
+                kn = None
+                for nm, claim, kw in b["claims"]:
+                    if nm == name:
+                        for fid, pred in (kw.get("known_preds") or {}).items():
+                            if fid in w.known and z3.is_true(z3.simplify(V.to_z3(pred))):
+                                kn = fid
+                w.res.candidates.append({"obligation": name + "[candidate from the ws2d-abstracted model]", "config": w.config,
+                                         "known": kn, "input": cand})
+        return
     b2 = build(False)
     w.res.encoded.update(b2["encoded"])
     todo = {n for n, _ in pending} if pending is not None else None
@@ -188,5 +230,9 @@ def two_stage(w, build, names_hint=""):
         if v not in ("unsat", "sat", "folded"):
             gave_up = True
             if cands.get(name) is not None:
+                kn = None
+                for fid, pred in (kw.get("known_preds") or {}).items():
+                    if fid in w.known and z3.is_true(z3.simplify(V.to_z3(pred))):
+                        kn = fid
                 w.res.candidates.append({"obligation": name + "[candidate from the ws2d-abstracted model; inlined query inconclusive]",
-                                         "config": w.config, "known": None, "input": cands[name]})
+                                         "config": w.config, "known": kn, "input": cands[name]})
